@@ -92,15 +92,24 @@ def bounds(tier):
 def plan(tier, seed):
     parts = 4 if tier == 'quick' else 16
     return [{'k': 'plid', 'part': p, 'parts': parts, 'tier': tier} for p in range(parts)] + \
-        [{'k': 'bmc', 'tier': tier}, {'k': 'id', 'tier': tier}, {'k': 'id_junk'}, {'k': 'bmc_junk'}, {'k': 'src'}, {'k': 'srcx'}, {'k': 'classes'}, {'k': 'perm', 'tier': tier}, {'k': 'subproc'}] + \
+        [{'k': 'bmc', 'tier': tier}, {'k': 'id', 'tier': tier}, {'k': 'id_junk'}, {'k': 'bmc_junk'}, {'k': 'src'}, {'k': 'srcx'}, {'k': 'classes'}, {'k': 'archived'}, {'k': 'perm', 'tier': tier}, {'k': 'subproc'}] + \
         [dict(c, optimize=True) for c in        # the same under python -O (assertions stripped, __debug__ false)
-         [{'k': 'plid', 'part': 0, 'parts': 4, 'tier': 'quick'}, {'k': 'bmc', 'tier': 'quick'}, {'k': 'id', 'tier': 'quick'}, {'k': 'id_junk'}, {'k': 'bmc_junk'}, {'k': 'src'}, {'k': 'classes'}]]
+         [{'k': 'plid', 'part': 0, 'parts': 4, 'tier': 'quick'}, {'k': 'bmc', 'tier': 'quick'}, {'k': 'id', 'tier': 'quick'}, {'k': 'id_junk'}, {'k': 'bmc_junk'}, {'k': 'src'}, {'k': 'classes'}, {'k': 'archived'}]]
+
+
+ARCHIVED = {'eid': 0x6200AA01, 'plid': 0x0000AA01, 'obmc': 987654, 'code': 'B7AR0001'}
 
 
 def build(d, entries=None):
     for name, spec, m in (entries or DIR):
         with open(os.path.join(d, name), 'wb') as f:
             f.write(pelgen.encode_pel(pelgen.pel_from_spec(spec)))
+    if entries is None:
+        # a subdirectory (the BMC keeps logs/archive below logs) with a PEL of its own: look-ups are about the PEL directory
+        os.mkdir(os.path.join(d, 'archive'))
+        with open(os.path.join(d, 'archive', '20230101000001_%08X' % ARCHIVED['eid']), 'wb') as f:
+            f.write(pelgen.encode_pel(pelgen.pel_from_spec({'eid': ARCHIVED['eid'], 'plid': ARCHIVED['plid'], 'obmc': ARCHIVED['obmc'],
+                                                           'sections': [{'t': 'PS', 'ascii': ARCHIVED['code'].ljust(32)}]})))
 
 
 def list_keys(stdout):
@@ -126,7 +135,7 @@ def eval_case(case, d=None):
     if d is None:
         with tempfile.TemporaryDirectory(prefix='c10_case_12345678_', dir=clidrv.odd_root()) as dd:
             entries = DIR if 'files' not in case else [DIR[i] for i in case['files']]
-            build(dd, entries)
+            build(dd, entries if 'files' in case else None)
             for name, kind in case.get('junk', []):
                 with open(os.path.join(dd, name), 'wb') as f:
                     f.write({'json': b'{\n    "Private Header": {}\n}\n', 'empty': b'', 'random': bytes(range(7, 90)),
@@ -275,6 +284,14 @@ def run_chunk(chunk):
                     _do(res, d, {'q': 'id', 'arg': '%08X' % m['eid'], 'order': order})
                     _do(res, d, {'q': 'bmc', 'arg': str(m['obmc']), 'order': order})
                 _do(res, d, {'q': 'plid', 'arg': '%08X' % m['plid'], 'hex': True})
+        elif k == 'archived':
+            # ids that only the PEL in the subdirectory carries: not found / not listed
+            for order in ('sorted', 'reversed'):
+                _do(res, d, {'q': 'bmc', 'arg': str(ARCHIVED['obmc']), 'order': order})
+                _do(res, d, {'q': 'id', 'arg': '%08X' % ARCHIVED['eid'], 'order': order})
+                _do(res, d, {'q': 'plid', 'arg': '%08X' % ARCHIVED['plid'], 'order': order})
+                _do(res, d, {'q': 'src', 'arg': ARCHIVED['code'], 'order': order})
+            _do(res, d, {'q': 'src', 'arg': 'B7AR', 'hex': True})
         elif k == 'bmc':
             for v in ([0, 1, 7, 10, 20, 4294967295, 100, 101, 102, 103, 104, 2, 8, 4294967294, 42949672950] +
                       (list(range(3, 120)) if chunk.get('tier') == 'thorough' else [])):
